@@ -315,7 +315,11 @@ func runC10(c *Ctx) {
 					if !ok[0] {
 						switch c.Rng.Intn(4) {
 						case 0:
-							tok, how = "garbage", "garbage"
+							// text that is no token at all - among it what older files put in this place: a URL of the token
+							notTokens := []string{"garbage", "https://example.com/activations/ABC.jwt", "http://localhost:9090/jwt/v1/activations/x",
+								"HTTPS://EXAMPLE.COM/a.jwt", "Http://example.com", "file:///etc/nats/activation.jwt", "nats://demo.nats.io/a", "a.b.c", "eyJ0eXAiOiJKV1QifQ", "{}", " "}
+							tok = notTokens[c.Rng.Intn(len(notTokens))]
+							how = "not a token: " + tok
 						case 1:
 							uc := jwt.NewUserClaims(g.userKey())
 							tok, _ = uc.Encode(exporter.kp)
